@@ -271,8 +271,15 @@ def u1_u3(prog: Program, chk: Check) -> None:
 
     # ------------------------------------------------- comparisons with a step
     want = (Poly.sym("T") - START).div(Poly.sym("DT"))
-    for q, opaque in (("system_dynamics:_parse_times", "times"),
-                      ("control:Control.get_controls", "_control_times")):
+    ctrl = prog.cls("control:Control")
+    ctrl_sites = [mu.qual for mu in ctrl.methods.values()
+                  if any(isinstance(c, ast.Call) and (dotted(c.func) or "").split(".")[-1]
+                         in ("round", "rint", "around") for c in walk_local(mu.node))]
+    if not ctrl_sites:
+        raise AnalysisError("U1: no rounding of float control times left in class Control")
+    n_ctrl = 0
+    for q, opaque in [("system_dynamics:_parse_times", "times")] + \
+            [(q_, "_control_times") for q_ in ctrl_sites]:
         u = prog.unit(q)
         du = tf.du(u)
         n = 0
@@ -292,14 +299,24 @@ def u1_u3(prog: Program, chk: Check) -> None:
                     if opaque in norm(x) and isinstance(x, (ast.Name, ast.Subscript, ast.Attribute)):
                         if not any(roles.role_of(y) in ("START", "DT") for y in ast.walk(x)):
                             return Poly.sym("T")
+                    if isinstance(x, ast.Name):
+                        dd = du.unique_value(du.node_of(c), x.id)
+                        if dd is not None and dd.value is not None and opaque in norm(dd.value) \
+                                and not any(roles.role_of(y) in ("START", "DT")
+                                            for y in ast.walk(dd.value)):
+                            return Poly.sym("T")
                     return None
                 f = form_at(du, du.node_of(c), arg, leafc)
                 chk.add("U1", u, f"round({norm(arg)})", f == want,
                         f"form {f}" if f == want else
                         f"float times are rounded as {f}, not (time - START)/DT: a shifted time "
                         f"origin selects different steps", c)
-        if n < 2:
+        if q.startswith("control:"):
+            n_ctrl += n
+        elif n < 2:
             raise AnalysisError(f"U1: rounding sites vanished in {q}")
+    if n_ctrl < 1:
+        raise AnalysisError("U1: float control times are no longer rounded in class Control")
 
 
 def u1_counts(prog: Program, chk: Check, tf: "TimeForms") -> None:
@@ -310,16 +327,21 @@ def u1_counts(prog: Program, chk: Check, tf: "TimeForms") -> None:
         u = prog.unit(q)
         du = tf.du(u)
         hits = 0
+        from oqv.dataflow import depends_on
         for x in walk_local(u.node):
             if isinstance(x, ast.BinOp) and isinstance(x.op, ast.Div) and \
                     roles.role_of(x.right) == "DT" and \
-                    any(roles.role_of(y) == "END" for y in ast.walk(x.left)):
+                    depends_on(du, x.left, du.node_of(x), {"end_time", "tmp_end_time"}):
                 hits += 1
 
                 def leaf(y):
                     r = roles.role_of(y)
                     if r in ("START", "DT", "END"):
                         return Poly.sym(r)
+                    # rounding an interval to some decimals keeps its form
+                    if isinstance(y, ast.Call) and (dotted(y.func) or "").split(".")[-1] in \
+                            ("round", "around") and y.args:
+                        return form_at(du, du.node_of(x), y.args[0], leaf)
                     return None
                 f = form_at(du, du.node_of(x), x, leaf)
                 chk.add("U1", u, f"step count from {norm(x)}", f == want,
